@@ -267,6 +267,9 @@ def exec_state(df, st, emb, kind, part, variant=0):
         for pr, r in obs.items():
             den = r["den"]
             p1, p2 = emb.point(r["p1"]), emb.point(r["p2"])
+            if emb.dyadic and all(float(x).is_integer() for x in tuple(p1) + tuple(p2)):
+                # the numeric type of the end points must not matter: Python ints on integer coordinates (seed C02-3)
+                p1, p2 = tuple(int(x) for x in p1), tuple(int(x) for x in p2)
             cond = f"{'1d' if nd == 1 else 'nd'}/{'same-point' if r['p1'] == r['p2'] else 'segment'}/{_cond(emb, kind)}"
             try:
                 ln = f.line(p1=p1, p2=p2, n=k)
@@ -562,7 +565,10 @@ def _drive(df, rnd, tr, mesh, m, S, n, nd, nv, kind, emb, names):
             ev = {"k": "line", "p1": p1, "p2": p2, "n": k, "ok": True, "cnt": 0, "pts": [], "exact": True, "vals": [], "d2": [], "d2ok": True,
                   "strict": bool(emb.dyadic and L.pow2(den))}
             try:
-                ln = f.line(p1=emb.point(p1), p2=emb.point(p2), n=k)
+                fp1, fp2 = emb.point(p1), emb.point(p2)
+                if emb.dyadic and step % 2 == 1 and all(float(x).is_integer() for x in tuple(fp1) + tuple(fp2)):
+                    fp1, fp2 = tuple(int(x) for x in fp1), tuple(int(x) for x in fp2)  # integer-typed end points
+                ln = f.line(p1=fp1, p2=fp2, n=k)
                 data = ln.data
                 ev["cnt"] = int(len(data))
                 P = np.asarray(data[list(ln.point_columns)])
